@@ -25,9 +25,9 @@ static LD const TINY = 2.2250738585072014e-308L;
 #define VP_K 16
 #endif
 
-enum { L_ASINH, L_ACOSH, L_ATANH, L_EXPM1, L_LOG1P, L_ATAN2, L_ATAN2_AXIS, L_NORM, L_NORM_EXTREME, L_COORD, L_REDUCE, L_REDUCE_STRIDED, L_SHIFT, L_SHIFT_LEN0, L_TINY_ARG, L_HUGE_ARG, L_NEAR_SWITCH };
+enum { L_ASINH, L_ACOSH, L_ATANH, L_EXPM1, L_LOG1P, L_ATAN2, L_ATAN2_AXIS, L_NORM, L_NORM_EXTREME, L_COORD, L_REDUCE, L_REDUCE_STRIDED, L_SHIFT, L_SHIFT_LEN0, L_TINY_ARG, L_HUGE_ARG, L_NEAR_SWITCH, L_NORM_SUBNORMAL };
 static char const *const labels[] = {"asinh", "acosh", "atanh", "expm1", "log1p", "atan2", "atan2_exact_axis", "norms", "norm_components_mix_huge_tiny", "coordinate_conversions",
-                                     "reductions", "strided_reductions", "shift_helpers", "shift_helper_length_0", "argument_lt_1e-3", "argument_gt_1e3", "argument_near_formula_switch", nullptr};
+                                     "reductions", "strided_reductions", "shift_helpers", "shift_helper_length_0", "argument_lt_1e-3", "argument_gt_1e3", "argument_near_formula_switch", "norm_subnormal_components", nullptr};
 static char const *const metrics[] = {"asinh_err_u", "acosh_err_u", "atanh_err_u", "expm1_err_u", "log1p_err_u", "atan2_err_u", "norm_err_u", "coord_err_u", nullptr};
 static uint8_t const dict[] = {0, 1, 2, 3, 4, 5, 6, 7};
 static vp_info const info = {"C11", VP_CFG, "", labels, metrics, 200, dict, sizeof(dict)};
@@ -198,7 +198,7 @@ static void case_norm(Tape &t, Ctx &cx)
 {
     unsigned n = 1 + t.u8() % 40;
     unsigned stride = 1 + t.u8() % 4;
-    uint8_t mode = t.u8() % 4;
+    uint8_t mode = t.u8() % 5;
     std::vector<a_real> v(n);
     bool extreme = false;
     for (auto &x : v)
@@ -208,6 +208,7 @@ static void case_norm(Tape &t, Ctx &cx)
         case 0: x = mk(t, -10, 10); break;
         case 1: x = mk(t, EMAX - 30, EMAX); extreme = true; break;              // squares would overflow
         case 2: x = mk(t, EMIN, EMIN + 30); extreme = true; break;              // squares would underflow
+        case 4: x = mk(t, A_SIZE_REAL == 4 ? -149 : -1074, A_SIZE_REAL == 4 ? -120 : -1015); extreme = true; cx.label(L_NORM_SUBNORMAL); break; // subnormal components: the result is representable
         default: x = (t.u8() % 4 == 0) ? mk(t, EMAX - 20, EMAX) : (t.u8() % 3 == 0 ? a_real(0) : mk(t, EMIN, EMIN + 40)); extreme = true; break;
         }
         if (t.coin()) { x = -x; }
@@ -250,7 +251,7 @@ static void case_norm(Tape &t, Ctx &cx)
             judge(cx, 7, "cart2pol:rho", "a_real_cart2pol rho", rho, r2, 6, v[0], v[1]);
             LD rt = atan2l((LD)v[1], (LD)v[0]);
             if (v[1] == 0 && v[0] < 0) { rt = theta < 0 ? -fabsl(rt) : fabsl(rt); }
-            if (v[0] != 0 || v[1] != 0) { judge(cx, 7, "cart2pol:theta", "a_real_cart2pol theta", theta, rt, VP_K, v[1], v[0]); } /* the argument of the zero vector is not defined */
+            if (mode != 4 && (v[0] != 0 || v[1] != 0)) { judge(cx, 7, "cart2pol:theta", "a_real_cart2pol theta", theta, rt, VP_K, v[1], v[0]); } /* the argument of the zero vector is not defined; with subnormal components the radius has too few bits for an accurate angle */
         }
     }
     if (n >= 3)
@@ -264,7 +265,7 @@ static void case_norm(Tape &t, Ctx &cx)
             judge(cx, 7, "cart2sph:rho", "a_real_cart2sph rho", rho, r3, 10, v[0], v[1]);
             LD rxy = sqrtl((LD)v[0] * v[0] + (LD)v[1] * v[1]);
             LD ra = atan2l((LD)v[2], rxy);
-            if (fabsl(ra) > TINY * 1e6L) { judge(cx, 7, "cart2sph:alpha", "a_real_cart2sph alpha", alpha, ra, 2 * VP_K, v[2], rxy); }
+            if (mode != 4 && fabsl(ra) > TINY * 1e6L) { judge(cx, 7, "cart2sph:alpha", "a_real_cart2sph alpha", alpha, ra, 2 * VP_K, v[2], rxy); }
         }
     }
     // inverse conversions at moderate magnitudes: x = rho cos(theta) etc. (absolute error relative to rho)
